@@ -142,13 +142,37 @@ static const char VMCI[] = "NUMBER(x)=1\nSYMBOL(s.t)=ff\nLENGTH(l)=3\nKEY=value\
  * value although addrxlat.default / addrxlat.force have one); "B<n>": a new context
  * whose VMCOREINFO has the n lines K0=v0 ... K<n-1>=v<n-1> (thousands of sibling
  * attributes with prefix-related keys, sharing the 1024 hash buckets) */
+/* "Y<n>": a chain of three dictionaries: c1 = clone(ctx, XLAT), c2 = clone(c1, XLAT); the n
+ * VMCOREINFO lines and file.set.0..2 are created through the leaf c2.  "Z<n>": mixed flags,
+ * c1 = clone(ctx, XLAT), c2 = clone(c1, 0), c3 = clone(c2, XLAT), created through c3.  The clones
+ * stay alive as contexts 1.. of the history. */
+static kdump_ctx_t *chain[4];
+static int nchain;
+
 static kdump_ctx_t *setup(const char *variant)
 {
 	kdump_ctx_t *ctx = kdump_new();
 	kdump_attr_t a;
+	nchain = 0;
 	if (!ctx) return NULL;
 	if (variant[0] == 'F')
 		return ctx;
+	if (variant[0] == 'Y' || variant[0] == 'Z') {
+		int n = atoi(variant + 1), i;
+		char *txt = malloc(24 * (size_t) n + 1), *q = txt;
+		kdump_ctx_t *leaf;
+		chain[nchain++] = kdump_clone(ctx, KDUMP_CLONE_XLAT);
+		chain[nchain] = kdump_clone(chain[nchain - 1], variant[0] == 'Y' ? KDUMP_CLONE_XLAT : 0); ++nchain;
+		if (variant[0] == 'Z') { chain[nchain] = kdump_clone(chain[nchain - 1], KDUMP_CLONE_XLAT); ++nchain; }
+		leaf = chain[nchain - 1];
+		for (i = 0; i < n; ++i) q += sprintf(q, "K%d=v%d\n", i, i);
+		a.type = KDUMP_BLOB;
+		a.val.blob = kdump_blob_new_dup(txt, q - txt);
+		free(txt);
+		kdump_set_attr(leaf, "linux.vmcoreinfo.raw", &a);
+		kdump_set_number_attr(leaf, "file.set.number", 3);
+		return ctx;
+	}
 	if (variant[0] == 'B' || variant[0] == 'X') {
 		int n = atoi(variant + 1), i;
 		/* "X<n>": the attributes are created through a KDUMP_CLONE_XLAT clone, which is
@@ -184,7 +208,7 @@ static kdump_ctx_t *setup(const char *variant)
 static int is_variant(const char *t)
 {
 	return (t[0] == 'P' || t[0] == 'F') ? t[1] == 0
-		: ((t[0] == 'B' || t[0] == 'X') && t[1] >= '0' && t[1] <= '9');
+		: ((t[0] == 'B' || t[0] == 'X' || t[0] == 'Y' || t[0] == 'Z') && t[1] >= '0' && t[1] <= '9');
 }
 
 /* ---- white-box dump of the whole dictionary ---- */
@@ -265,6 +289,8 @@ static void run_case(char **ops, int nops)
 
 	if (nops && is_variant(ops[0])) { variant = ops[0]; first = 1; }
 	ctx[0] = setup(variant);
+	for (i = 0; i < nchain; ++i)
+		ctx[nctx++] = chain[i];
 	for (i = first; i < nops; ++i) {
 		char *f[8] = { 0 };
 		int nf = 0;
@@ -420,8 +446,13 @@ static void run_case(char **ops, int nops)
 		fflush(stdout);
 		_exit(0);	/* no kdump_free after a re-open: see known finding */
 	}
-	for (i = MAXCTX - 1; i >= 0; --i)
-		if (ctx[i]) kdump_free(ctx[i]);
+	if (nchain) {
+		for (i = 1; i < MAXCTX; ++i)		/* the middle of a chain first */
+			if (ctx[i]) kdump_free(ctx[i]);
+		if (ctx[0]) kdump_free(ctx[0]);
+	} else
+		for (i = MAXCTX - 1; i >= 0; --i)
+			if (ctx[i]) kdump_free(ctx[i]);
 	for (i = 0; i < MAXSLOT; ++i)
 		free(iterdir[i]);
 }
@@ -438,6 +469,8 @@ int main(int argc, char **argv)
 		printf("TREE %s", variant);
 		tree_node(gattr(ctx, GKI_dir_root));
 		putchar('\n');
+		fflush(stdout);
+		if (nchain) _exit(0);	/* freeing is part of the histories, not of the dump */
 		kdump_free(ctx);
 		if (blobs[0]) kdump_blob_decref(blobs[0]);
 		return 0;
